@@ -15,6 +15,9 @@ from .common import try_abs, tla_set
 TYPES = ["int", "float", "str", "list"]
 
 
+from .common import exercise  # noqa: E402
+
+
 def run_case(ty, base, refs):
     import d42
     recv0 = am.g_bare(ty)
@@ -41,10 +44,19 @@ def run_case(ty, base, refs):
             outs.append({"exc": "", "rep": rep, "result": ra})
             results.append(obj)
     eq_all = True
-    for a in results:
-        for b in results:
-            if not (a == b) or (a != b):
-                eq_all = False
+    # compared twice: as built, and after each result has been looked at through its public
+    # renderings (repr of the schema and of its props, generation, validation)
+    for attempt in (0, 1):
+        for a in results:
+            for b in results:
+                try:
+                    if not (a == b) or (a != b) or not (a.props == b.props) or (a.props != b.props):
+                        eq_all = False
+                except Exception:
+                    eq_all = False
+        if attempt == 0:
+            for a in results:
+                exercise(a)
     return {"perms": [[i + 1 for i in p] for p in perms], "outs": outs, "eq_all": eq_all}
 
 
